@@ -50,6 +50,10 @@ def write_replay(pid, unit, failure, unit_result, seed):
            'functions_under_contract': [{'file': i['file'], 'path': i['path']} for i in unit_result.get('items', [])],
            'witness': None, 'witness_replayed': None}
     found = False
+    if failure.get('witness_text'):
+        rep['witness'] = {'failing_input': failure['witness_text'], 'how': 'natively compiled extracted real code (witness search of unit %s); rerun: %s' % (unit, unit_result.get('cmd'))}
+        rep['witness_replayed'] = {'observed': 'the native run itself is the replay: the property-level check failed on this input', 'cmd': unit_result.get('cmd')}
+        found = True
     if unit_result['backend'] == 'kani' and failure.get('harness'):
         import units as U
         cfg = U.UNITS[unit]
